@@ -175,8 +175,17 @@ def _collect(tier, cd):
             if run.get("status") == "machinery":
                 all_findings.append({"property": "B", "clause": "B_Machinery", "rule": "", "input": run.get("file"), "config": "", "event": "", "l": 0, "tid": tid,
                                      "detail": {"tb": run.get("tb", "")[-800:]}})
+        # a divergence between the final model and its re-read text is attributed to the rule(s) that left the list
+        # non-canonical during the same run (C08_Canonical is reported at the step that introduces it)
+        culprits = {}
+        for tid, l, clause in res.verdicts:
+            if clause == "C08_Canonical":
+                ev = runs[tid]["ev"][l - 1]
+                culprits.setdefault(tid, set()).add(S.text(ev["rule"]) if "rule" in ev else "phase1-normalisation")
         for tid, l, clause in res.verdicts:
             f = F.describe(runs[tid], l, clause, S)
+            if clause in ("C08_SameTokens", "C08_SameIndent", "C08_Accepted") and tid in culprits:
+                f["rule"] = ",".join(sorted(culprits[tid]))
             # under an option sweep the configuration that matters is the rule's own setting
             st = sweeps.get(f["config"], {}).get(f["rule"])
             if st is not None:
